@@ -65,6 +65,11 @@ def run(ctx) -> None:
         for meth, track, kind in (("aspirate", "remove", "A"), ("dispense", "add", "D")):
             ctx.reuse("C07.record-pair", c01.pair_ad, dev, meth, track, kind)
     ctx.guard("C07.tip-action", wash_method)
+    # a transfer that is refused raises to the caller: leaving the `with` block must not swallow the exception (a truthy
+    # __exit__ result drops the rejection silently and the rest of the block with it)
+    from . import c03 as _c03x
+
+    ctx.reuse("C07.reject", _c03x.exit_saves, "C03.exit")
     # the DiTi switch (and the limit) the user configured reaches every worklist class unchanged
     from . import c16
 
